@@ -38,6 +38,12 @@ def main():
            'contents': [c.decode('latin-1') for c in contents]}
     with open(spec['log'], 'a') as f:
         f.write(json.dumps(rec) + '\n')
+    if spec.get('noise'):
+        # a noisy test: bytes that are not valid UTF-8, and a lot of them
+        sys.stdout.buffer.write(b'\xff\xfe noisy \xc3\x28\n' * int(spec.get('noise')))
+        sys.stdout.buffer.flush()
+        sys.stderr.buffer.write(b'\x80\x81 stderr noise\n' * int(spec.get('noise')))
+        sys.stderr.buffer.flush()
     if out == 'timeout':
         time.sleep(300)
         sys.exit(1)
